@@ -305,7 +305,7 @@ def run(ctx) -> None:
     ctx.sweep("every (setting, member, case style), member integer, boolean spelling, raw fan integer, setpoint; invalid catalogue", n, True)
 
     valid = st.builds(_mk_valid, st.lists(pair_strategy(), min_size=1, max_size=3), gens.device_states(), st.booleans(), st.sampled_from([2, 2, 3]))
-    ctx.hyp("valid argv", valid, lambda c: _run_one(ctx, c), ctx.n(900, 96000))
+    ctx.hyp("valid argv", valid, lambda c: _run_one(ctx, c), ctx.n(3200, 128000))
     invalid = st.tuples(st.lists(pair_strategy().map(lambda t: t[1]), max_size=2), st.sampled_from(INVALID), st.integers(0, 2)).map(
         lambda t: {"kind": "invalid", "settings": (t[0][:t[2]] + [t[1]] + t[0][t[2]:]), "initial": DEFAULT_INITIAL, "capabilities": False, "version": 2})
-    ctx.hyp("invalid argv", invalid, lambda c: _run_one(ctx, c), ctx.n(300, 32000))
+    ctx.hyp("invalid argv", invalid, lambda c: _run_one(ctx, c), ctx.n(1200, 48000))
